@@ -119,7 +119,7 @@ uint64_t vt_fault_fired(void);
 /* statistics */
 struct vt_stats {
 	uint64_t waits, waits_blocked, quiescences, time_advances, stimuli, timerfd_fires,
-		 perturb_yield, perturb_sleep, injected, threads_created, sig_deliveries, stale_errno;
+		 perturb_yield, perturb_sleep, injected, threads_created, sig_deliveries, stale_errno, pct_changes, pct_deferrals;
 };
 extern struct vt_stats vt_stats;
 
